@@ -66,10 +66,12 @@ pub struct Outcome {
     pub sample: Value,
     /// extra witness text (log tail) for replay files
     pub witness: Vec<String>,
+    /// the sample carries data the caller unpacks (results of a child process): never strip it
+    pub keep_sample: bool,
 }
 impl Outcome {
     pub fn new(sample: Value) -> Outcome {
-        Outcome { verdict: Verdict::Held, nontrivial: false, sig: 0, counters: BTreeMap::new(), sample, witness: vec![] }
+        Outcome { verdict: Verdict::Held, nontrivial: false, sig: 0, counters: BTreeMap::new(), sample, witness: vec![], keep_sample: false }
     }
     pub fn count(&mut self, k: &str, v: u64) {
         if k.starts_with("max_") {
@@ -204,7 +206,7 @@ pub fn par_run<C: Sync>(ctx: &Ctx, cases: &[C], id: &(dyn Fn(&C) -> String + Syn
                     }
                     Verdict::Inconclusive(_) => true,
                 };
-                if i >= 48 && strip {
+                if i >= 48 && strip && !out.keep_sample {
                     out.sample = Value::Null;
                     out.witness = vec![];
                 }
